@@ -221,8 +221,10 @@ impl TokenType {
         match self {
             If | Else | While | Array | Of | Proc | Ref | Type | Var | Colon | Divide | Lt | Gt
             | Int(_) | Ident(_) | Hex(_) => 1,
+            // a comment in the last line has no line break yet, so it grows with the text
+            Comment(_) => 1,
             LParen | RParen | LBracket | RBracket | LCurly | RCurly | Eq | Neq | Le | Ge
-            | Assign | Comma | Semic | Plus | Minus | Times | Comment(_) | Unknown(_) | Eof => 0,
+            | Assign | Comma | Semic | Plus | Minus | Times | Unknown(_) | Eof => 0,
             Char(_) => {
                 1 // this is a worst case look ahead.
             }
